@@ -23,6 +23,7 @@
                         ParseStatement / ParseStatements return a tree (list) iff ParseDML / ParseDMLs return the same
 -/
 import MF.Proofs.DMLComplete
+import MF.Proofs.DMLTerminates
 namespace MF.Props.C08
 open MF MF.Expr MF.DML
 
@@ -142,6 +143,23 @@ theorem dml_entry_points_agree {ε : Type} (pe : Nat → List Token → Res (ε 
     exact ⟨e, by unfold parseStatementTop parseDMLTop; rw [e]⟩
   · exact dml_finish_ok_iff (dml_statement_ok_iff pe fuel ts) s
   · exact dml_finish_ok_iff (dml_stmtsLoop_ok_iff (dml_statement_ok_iff pe) fuel ts) l
+
+/-! (5) concrete fuel, with the termination / fuel stability of the DML model (MF/Proofs/DMLTerminates.lean, registered
+under C03 as `dml_terminates`, `dml_fuel_stable`) -/
+
+/-- (2) for ParseDML with a concrete fuel: every fuel `≥ dmlBound = 15 * |tokens| + 18` -/
+theorem dml_complete_top_fuel {s : Stmt Expr} {pre : List Token} (hd : StmtD s pre) (hc : NoCast pre) {rest : List Token}
+    (he : cur rest = .eof) {fuel : Nat} (h : dmlBound (pre ++ rest) ≤ fuel) :
+    parseDMLTop parseExpr fuel (pre ++ rest) = .ok s := by
+  obtain ⟨n, hn⟩ := dml_complete_top hd hc he
+  have e := (dmlTops_stable peFine_expr peMono_expr h
+    (Nat.le_max_right n (dmlBound (pre ++ rest)))).1
+  rw [e]; exact hn _ (Nat.le_max_left _ _)
+
+/-- in particular with the fuel of the driver -/
+theorem dml_complete_top_driver {s : Stmt Expr} {pre : List Token} (hd : StmtD s pre) (hc : NoCast pre) {rest : List Token}
+    (he : cur rest = .eof) : parseDMLTop parseExpr (dmlFuel (pre ++ rest)) (pre ++ rest) = .ok s :=
+  dml_complete_top_fuel hd hc he (dmlBound_le_dmlFuel _)
 
 /-! ## non-vacuity: concrete statements through the model lexer and the model parser -/
 
